@@ -26,14 +26,14 @@ func init() {
 			"callbacks are fast and at most a few reports are outstanding, so the 64-slot callback queue never overflows in judged histories",
 			"with SkipInitialVerification the never-verified initial config (serial 0) is not judged by the validity sampler; with DelayInitialVerification and no EnableVerification nothing is (verification is not active)",
 		},
-		MinDistinct: map[string]int{"quick": 100, "thorough": 2000},
+		MinDistinct: map[string]int{"quick": 1000, "thorough": 50000},
 		MinCounters: map[string]map[string]int64{
 			"quick":    {"configs_validity_checked": 2000, "rejections_checked_exactly": 300, "linearizable_histories": 80, "verify_calls_observed": 2000},
-			"thorough": {"configs_validity_checked": 100000, "rejections_checked_exactly": 10000, "linearizable_histories": 4000},
+			"thorough": {"configs_validity_checked": 1000000, "rejections_checked_exactly": 100000, "linearizable_histories": 40000},
 		},
 		Plan: func(tier string) fw.Plan {
 			if tier == "thorough" {
-				return fw.Plan{Shards: 16, CasesPerShard: 1250, TimeoutSec: 3000}
+				return fw.Plan{Shards: 16, CasesPerShard: 6000, TimeoutSec: 3000}
 			}
 			return fw.Plan{Shards: 8, CasesPerShard: 250, TimeoutSec: 900}
 		},
